@@ -11,6 +11,7 @@ ASSUMPTIONS = ['coordinates are multiples of 0.5 and parameters lie on the exact
 
 
 class RowStream(AlignStream):
+    # (AlignStream's prelude is overridden below)
     name = 'align_rows'
     weights = dict(realistic=2, blocks=5, dense=5, boundary=1, folding=2, fragment=2)
     quick_n, thorough_n = 6000, 100000
